@@ -11,7 +11,7 @@
 (*   "n2"    the same with x, y over all leaves                                   *)
 (*   "n3r"   [x [y C z] w] and <<k [x <<k2 C>> y]>> over Reps (depth 3)           *)
 EXTENDS Lex, TLC, Json
-CONSTANTS Shapes
+CONSTANTS Shapes, Slice, NSlices
 VARIABLE t
 
 Null == [k |-> "null"]
@@ -34,7 +34,7 @@ Leaves == Reps \o <<
    B(FALSE),
    I("0"), I("2147483648"), I("-2147483648"), I("9223372036854775807"), I("-9223372036854775808"),
    R(0, 0), R(-5, -1), R(1, -12), R(1, -13), R(16, -13), R(-4, -13), R(123456789, -7), R(314159, -5), R(1, 10), R(-25, -2),
-   BR("-1.5e+300"), BR("1.7976931348623157e+308"), BR("1e+15"),
+   BR("-1.5e+300"), BR("1.7976931348623157e+308"), BR("1e+15"), BR("9e+18"), BR("1e+19"),
    N(<<35>>), N(<<47, 40, 41>>), N(<<60, 62, 91, 93, 123, 125, 37>>), N(<<128, 255>>), N(<<49>>),
    N(<<110, 117, 108, 108>>), N(<<82>>), N(<<1, 127>>), N(<<65, 35, 50, 48>>),
    S(<<>>), S(<<40>>), S(<<41>>), S(<<92>>), S(<<97, 40, 98, 41, 99>>), S(<<13, 10>>), S(<<0, 128, 255>>),
@@ -48,30 +48,31 @@ Comps == << Arr(<<>>), Dict(<<>>), Arr(<<I("1")>>), Arr(<<N(<<65>>)>>), Arr(<<S(
             Dict(<<En(<<65>>, Null)>>), Arr(<<N(<<>>)>>), Dict(<<En(<<65>>, N(<<>>))>>), Arr(<<Null>>),
             Dict(<<En(<<65>>, Ref(1, 0))>>), Arr(<<H(<<>>)>>), Dict(<<En(<<65>>, R(5, -1))>>) >>
 
+Mine(Q) == {x \in Q : x % NSlices = Slice}     \* slices of the first index, for parallel generation
 RI == 1..Len(Reps)
 LI == 1..Len(Leaves)
 Opt(seq, i) == IF i = 0 THEN <<>> ELSE <<seq[i]>>
 
 Init ==
-  \/ "leaf" \in Shapes /\ \E i \in LI : t = Leaves[i]
-  \/ "a1" \in Shapes /\ \E i \in LI : t = Arr(<<Leaves[i]>>)
-  \/ "a2" \in Shapes /\ \E i \in LI, j \in LI : t = Arr(<<Leaves[i], Leaves[j]>>)
-  \/ "a3r" \in Shapes /\ \E i \in RI, j \in RI, n \in RI : t = Arr(<<Reps[i], Reps[j], Reps[n]>>)
-  \/ "a3" \in Shapes /\ \E i \in LI, j \in LI, n \in LI : t = Arr(<<Leaves[i], Leaves[j], Leaves[n]>>)
-  \/ "d1" \in Shapes /\ \E a \in 1..Len(Keys), i \in LI : t = Dict(<<En(Keys[a], Leaves[i])>>)
-  \/ "d2r" \in Shapes /\ \E p \in 1..Len(KeyPairsR), i \in RI, j \in RI :
+  \/ "leaf" \in Shapes /\ \E i \in Mine(LI) : t = Leaves[i]
+  \/ "a1" \in Shapes /\ \E i \in Mine(LI) : t = Arr(<<Leaves[i]>>)
+  \/ "a2" \in Shapes /\ \E i \in Mine(LI), j \in LI : t = Arr(<<Leaves[i], Leaves[j]>>)
+  \/ "a3r" \in Shapes /\ \E i \in Mine(RI), j \in RI, n \in RI : t = Arr(<<Reps[i], Reps[j], Reps[n]>>)
+  \/ "a3" \in Shapes /\ \E i \in Mine(LI), j \in LI, n \in LI : t = Arr(<<Leaves[i], Leaves[j], Leaves[n]>>)
+  \/ "d1" \in Shapes /\ \E a \in 1..Len(Keys), i \in Mine(LI) : t = Dict(<<En(Keys[a], Leaves[i])>>)
+  \/ "d2r" \in Shapes /\ \E p \in 1..Len(KeyPairsR), i \in Mine(RI), j \in RI :
         t = Dict(<<En(Keys[KeyPairsR[p][1]], Reps[i]), En(Keys[KeyPairsR[p][2]], Reps[j])>>)
-  \/ "d2" \in Shapes /\ \E a \in 1..Len(Keys), b \in 1..Len(Keys), i \in LI, j \in LI :
+  \/ "d2" \in Shapes /\ \E a \in 1..Len(Keys), b \in 1..Len(Keys), i \in Mine(LI), j \in LI :
         a < b /\ t = Dict(<<En(Keys[a], Leaves[i]), En(Keys[b], Leaves[j])>>)
-  \/ "n2r" \in Shapes /\ \E i \in 0..Len(Reps), j \in 0..Len(Reps), c \in 1..Len(Comps) :
+  \/ "n2r" \in Shapes /\ \E i \in Mine(0..Len(Reps)), j \in 0..Len(Reps), c \in 1..Len(Comps) :
         \/ t = Arr(Opt(Reps, i) \o <<Comps[c]>> \o Opt(Reps, j))
         \/ j > 0 /\ i > 0 /\ i <= Len(KeyPairsR) /\
              t = Dict(<<En(Keys[KeyPairsR[i][1]], Comps[c]), En(Keys[KeyPairsR[i][2]], Reps[j])>>)
         \/ j > 0 /\ i > 0 /\ i <= Len(KeyPairsR) /\
              t = Dict(<<En(Keys[KeyPairsR[i][1]], Reps[j]), En(Keys[KeyPairsR[i][2]], Comps[c])>>)
-  \/ "n2" \in Shapes /\ \E i \in 0..Len(Leaves), j \in 0..Len(Leaves), c \in 1..Len(Comps) :
+  \/ "n2" \in Shapes /\ \E i \in Mine(0..Len(Leaves)), j \in 0..Len(Leaves), c \in 1..Len(Comps) :
         t = Arr(Opt(Leaves, i) \o <<Comps[c]>> \o Opt(Leaves, j))
-  \/ "n3r" \in Shapes /\ \E i \in RI, j \in RI, c \in 1..Len(Comps), a \in 1..Len(Keys) :
+  \/ "n3r" \in Shapes /\ \E i \in Mine(RI), j \in RI, c \in 1..Len(Comps), a \in 1..Len(Keys) :
         \/ \E n \in {1, 3, 7, 8, 10, 14}, m \in {1, 3, 7, 8, 10, 14} :
              t = Arr(<<Reps[n], Arr(<<Reps[i], Comps[c], Reps[j]>>), Reps[m]>>)
         \/ t = Dict(<<En(Keys[a], Arr(<<Reps[i], Dict(<<En(Keys[5], Comps[c])>>), Reps[j]>>))>>)
